@@ -5,7 +5,7 @@ import random
 import time
 from fractions import Fraction as F
 
-from translate import sgtables
+from translate import sgtables, c06_queryguards
 from vlib import c0506_strata as st
 from vlib import c0506_cert as ce
 
@@ -162,9 +162,9 @@ def _usage_worker(job):
         if case is None:
             continue
         case["long"] = ce.make_long_case(ops, strata, rng)
-        rec = {"si": si, "usage": case, "hits": [], "exc": None}
+        rec = {"si": si, "usage": case, "hits": [], "exc": None, "queries": []}
         try:
-            rec["hits"] = [(k, m, d) for k, m, d in ce.finder_usage(sg, ops, case, pid)]
+            rec["hits"] = [(k, m, d) for k, m, d in ce.finder_usage(sg, ops, case, pid, qlog=rec["queries"])]
             if case["long"] is not None:
                 rec["hits"] += [(k, m, d) for k, m, d in ce.finder_long_listing(sg, ops, case["long"], pid)]
         except ce.CertError as e:
@@ -209,6 +209,8 @@ from vlib import core, sglive
 TRUSTED = [
     "Coq 8.16.1 kernel (theorems closed under the global context: no axioms)",
     "translate/sgtables.py (fail-closed ast translator of the space-group tables; validated against the live objects each run)",
+    "translate/c06_queryguards.py (fail-closed: pins the ast of positionDifference/nearestSiteIndex/equalPositions to the modelled shape, "
+    "reads the tolerance argument of the guards of positionFormula/UFormula and the eps handed to GeneratorSite by its two callers)",
     "OCaml extraction with ExtrOcamlBasic only (bool, option, list, prod, unit, sumbool mapped; Z, positive, nat, Q extracted inductives) "
     "and ocaml/C0506/driver.ml (reads integers, prints integers; decoding of a certificate is done by the extracted Coq function c0506_run)",
     "vlib/c0506_cert.py: formula reader (cross-checked on every formula against Python's own parser), conversion of the reported doubles to "
@@ -269,7 +271,7 @@ def run_property(ctx, pid):
     thorough = ctx.tier == "thorough"
     built = False
     with core.BuildLock():
-        if ctx.regen("sgtables", sgtables.generate):
+        if ctx.regen("sgtables", sgtables.generate) and ctx.regen("c06_queryguards", c06_queryguards.generate):
             ok, _ = ctx.coq(["Props/%s.vo" % pid, "Model/C05_Run.vo"], theorems_in={"Props/%s" % pid})
             if ok:
                 built = build_checker(ctx)
@@ -379,6 +381,17 @@ def run_property(ctx, pid):
             ctx.violation("%s: %s" % (settings[r["si"]]["short_name"], msg),
                           {"setting_index": r["si"], "short_name": settings[r["si"]]["short_name"], "finder": "usage",
                            "usage": r["usage"], "kind": k}, key=key)
+    # the query model (Model/C06_Query.v with the guards of the current source) against the real answers
+    qrecs = [q for r in urecs for q in r.get("queries", [])]
+    if built and qrecs:
+        qres = ce.run_checker([q["line"] for q in qrecs], nproc=core.NPROC)
+        qbad = [(q, a) for q, a in zip(qrecs, qres) if a != [q["real"]]]
+        ctx.count(n=len(qrecs))
+        ctx.obligation("correspondence:query-model-vs-%s" % ("positionFormula" if pid == "C05" else "UFormula"), not qbad,
+                       "%d of %d queries differ, e.g. %s: model %s, implementation %s" % (
+                           len(qbad), len(qrecs), qbad[0][0]["what"], qbad[0][1], qbad[0][0]["real"]) if qbad else "")
+        ctx.coverage["query_cases"] = len(qrecs)
+        ctx.coverage["query_answers"] = dict(collections.Counter("answered" if q["real"] >= 0 else "empty" for q in qrecs))
     ctx.obligation("correspondence:usage-patterns (shared arrays = fresh copies; eps 1e-3 / 1e-7; query histories = fresh object; custom symbols on long listings)",
                    not ubad, "; ".join("%s x%d" % kv for kv in ubad.items()))
 
